@@ -15,6 +15,10 @@ import (
 var shortDocs = []string{
 	// literals
 	`null`, `true`, `false`, ` null `, `nul`, `nulx`, `nxll`, `tru`, `trux`, `txue`, `fals`, `falsx`, `fxlse`, `nullx`, `truefalse`,
+	// surrogate pairs and other escapes in object keys (struct key matchers)
+	`{"\ud83d\ude00":1,"A":2}`, `{"A\ud83d\ude00":1,"B":"x"}`, `{"\ud83d":1,"A":2}`, `{"B\u00e9\ud83d\ude00z":"v","A":3}`,
+	// rarely used member decoders (type Odd)
+	`{"p":"{\"A\":1,\"B\":\"x\",\"C\":true}","f":null,"n":3,"q":"1.5"}`, `{"f":null,"n":1}`, `{"n":2,"f":null,"p":"null","q":null}`,
 	// numbers
 	`0`, `-0`, `1`, `-1`, `12`, `123`, `1234567890`, `1.5`, `-1.5e10`, `1E+2`, `1e-2`, `0.001`, `123456789012345678901`,
 	`1.`, `-`, `01`, `1e`, `1e+`, `-.5`, `.5`, `1.5.5`, `1x`, `12 34`, `-12`, `255`, `256`, `1e400`,
@@ -58,6 +62,9 @@ func typesForDoc(doc string, r *plan.Rng, max int) []string {
 		switch d[0] {
 		case '{':
 			cands = []string{"Iface", "Small", "MapStrIface", "Nested", "WithUCB", "Tagged", "Raw", "StrTag", "MapStrInt", "Ptrs", "UJ", "Recursive", "Embedded", "CaseColl", "MapIntString", "MapMTInt", "WithIface", "G0007", "Wide"}
+			if strings.Contains(d, `"f":null`) {
+				cands = []string{"Iface", "Odd", "Odd", "Small"}
+			}
 		case '[':
 			cands = []string{"Iface", "SliceInt", "SliceIface", "ArrInt3", "SliceString", "SliceSmall", "Raw", "SliceSlice", "SliceUJ", "ArrStr2", "SlicePtrSmall", "ArrU8", "SliceFloat"}
 		case '"':
@@ -83,7 +90,14 @@ func typesForDoc(doc string, r *plan.Rng, max int) []string {
 
 // stdDoc marshals the catalogue value (T, seed) with the standard library:
 // a generator of documents that fit T, not an oracle.
+var oddDocs = []string{`{"p":"{\"A\":1,\"B\":\"x\",\"C\":true}","f":null,"n":3,"q":"1.5"}`, `{"f":null,"n":1}`, `{"n":2,"f":null,"p":"null","q":null}`,
+	`{"p":"{\"A\":-7,\"B\":\"\\u00e9\"}","n":5}`, `{"q":"-0.25","f":null}`, `{"p":null,"f":null,"n":0,"q":"1e3"}`}
+
 func stdDoc(ti *TypeInfo, seed int64) []byte {
+	if ti.Name == "Odd" {
+		// (encoding/json cannot produce documents for it: func member)
+		return []byte(oddDocs[int(uint64(seed)%uint64(len(oddDocs)))])
+	}
 	for try := int64(0); try < 8; try++ {
 		s := (seed+try)<<3 | 1 // low bits != 7: not faulty
 		v := MakeValue(ti, s)
